@@ -201,6 +201,14 @@ def unary(ctx, P, a, k, rng, full=True):
             for p, v in zip(L, vals): w[p] = v
             Z = mk(P, a, k); r = call(Z.__setitem__, L, list(vals))
             same(ctx, 'setitem', Z if not is_exc(r) else r, w, k, idx=L, v=vals, **det)
+        # a sequence value with fewer coefficients than the selection (down to none) is zero-extended over the selection
+        for sel, idx in ((list(range(1, n)), slice(1, n)), (list(range(n)), slice(None)), (list(range(0, n, 2)), slice(0, n, 2)), (list(range(n - 1, -1, -1)), list(range(n - 1, -1, -1)))):
+            for m in range(0, len(sel)):
+                vals = [red(7 + 3 * j, k) for j in range(m)]
+                w = list(a)
+                for t, p in enumerate(sel): w[p] = vals[t] if t < m else 0
+                Z = mk(P, a, k); r = call(Z.__setitem__, idx, list(vals))
+                same(ctx, 'setitem', Z if not is_exc(r) else r, w, k, idx=str(idx), v=vals, shorter_value=True, **det)
     if k:
         for ks in [d for d in range(1, k + 1) if k % d == 0]:
             for big in (False, True):
